@@ -12,3 +12,16 @@ add("C20", "model_checking",
     "No real MPI: the communicator is simulated (fake mpi4py module); process counts above the "
     "bound are not explored.",
     "DESIGN.md §3 C20")
+add("C13", "model_checking",
+    "exhaustive enumeration of axis configurations with linearity closure over the data basis, "
+    "checked against direct O(N^2) Fourier sums",
+    "Complete product direction {time,frequency} x axis type x start {0, centred, 3.0, -1.25} x "
+    "step (4 values) x every length 2..9 (quick) / 2..17,32,33,64,101 (thorough). At every point "
+    "the axis round trip is checked, the conjugate axis is compared with the closed formula, and "
+    "the transform is run on ALL basis vectors delta_k and i*delta_k of the data space; since the "
+    "transforms are (real-)linear this decides the FT-sum and the round-trip clause for every "
+    "complex data vector on that axis.",
+    "Lengths above the bound and steps/starts outside the alphabet are not explored. Data round "
+    "trip that starts from an upper-half FREQUENCY axis is not claimed (the property restricts "
+    "half axes to Hermitian-extendable time data; those are reached from the time side).",
+    "DESIGN.md §3 C13")
